@@ -54,14 +54,30 @@ func chainWorkload(seed int64, tier string, links []string, nPairs, nLong, maxLe
 		// membership of a pair depends only on the two names (not on the size of the library), so that adding links
 		// adds pairs but never reshuffles the existing sample: rate = nPairs / 220^2
 		thr := uint64(float64(nPairs) / 48400.0 * float64(1<<32))
+		type hp struct {
+			h    uint64
+			a, b string
+		}
+		var sel []hp
 		for _, a := range links {
 			for _, b := range links {
 				h := fnv.New64a()
 				_, _ = h.Write([]byte("pair:" + a + ">" + b))
-				if (h.Sum64()>>7)&0xffffffff < thr {
-					add([]string{a, b})
+				if v := (h.Sum64() >> 7) & 0xffffffff; v < thr {
+					sel = append(sel, hp{v, a, b})
 				}
 			}
+		}
+		// in hash order, so that a batch mixes link families (a batch of pairs that all start with global links makes
+		// the backward analysis explode: every global read goes to every global write)
+		sort.Slice(sel, func(i, j int) bool {
+			if sel[i].h != sel[j].h {
+				return sel[i].h < sel[j].h
+			}
+			return sel[i].a+">"+sel[i].b < sel[j].a+">"+sel[j].b
+		})
+		for _, p := range sel {
+			add([]string{p.a, p.b})
 		}
 	}
 	// Seed-dependent longer chains draw from the links that take part in no listed pair finding: the closure family
